@@ -51,6 +51,7 @@ type callTokenData struct {
 	CallID    string // 32-char lowercase hex; binds this call to its cursors
 	SchemaIPC []byte // serialized output schema for dynamic methods; nil for static
 	StreamID  string // stable across init/continuations of one stream call
+	Method    string // the stream method whose /init minted this call
 }
 
 // cursorTokenData is the advancing half: re-minted every turn under
@@ -66,6 +67,7 @@ type cursorTokenData struct {
 type resolvedCall struct {
 	SchemaIPC []byte
 	StreamID  string
+	Method    string
 }
 
 // defaultCallStateCacheEntries bounds the per-process call cache.
@@ -442,10 +444,19 @@ func normalizeTokenKey(key []byte) []byte {
 // packCallToken seals the half of a stream's state that is fixed for the
 // life of the call. Minted once, by /init; never re-issued.
 func (h *HttpServer) packCallToken(callID string, outputSchema *arrow.Schema, auth *AuthContext, streamID string) ([]byte, error) {
+	return h.packCallTokenFor("", callID, outputSchema, auth, streamID)
+}
+
+// packCallTokenFor is packCallToken for the stream method whose /init is
+// minting the call. The method name is sealed into the call token (and cached
+// with it) so that a continuation route only resumes calls its own method
+// started; see handleStreamExchange.
+func (h *HttpServer) packCallTokenFor(method string, callID string, outputSchema *arrow.Schema, auth *AuthContext, streamID string) ([]byte, error) {
 	data := callTokenData{
 		CreatedAt: time.Now().Unix(),
 		CallID:    callID,
 		StreamID:  streamID,
+		Method:    method,
 	}
 	if outputSchema != nil {
 		data.SchemaIPC = serializeSchema(outputSchema)
@@ -456,7 +467,7 @@ func (h *HttpServer) packCallToken(callID string, outputSchema *arrow.Schema, au
 	}
 	// Warm the cache with the values we already hold, so this stream's first
 	// continuation does not have to open the token it was just handed.
-	h.callStates.put(callID, auth, &resolvedCall{SchemaIPC: data.SchemaIPC, StreamID: streamID}, data.CreatedAt)
+	h.callStates.put(callID, auth, &resolvedCall{SchemaIPC: data.SchemaIPC, StreamID: streamID, Method: method}, data.CreatedAt)
 	return token, nil
 }
 
@@ -520,7 +531,7 @@ func (h *HttpServer) resolveCall(cursor *cursorTokenData, callToken []byte, auth
 		return nil, &RpcError{Type: "RuntimeError", Message: "Malformed state token"}
 	}
 
-	got := &resolvedCall{SchemaIPC: data.SchemaIPC, StreamID: data.StreamID}
+	got := &resolvedCall{SchemaIPC: data.SchemaIPC, StreamID: data.StreamID, Method: data.Method}
 	h.callStates.put(cursor.CallID, auth, got, data.CreatedAt)
 	return got, nil
 }
